@@ -109,7 +109,7 @@ def main(argv=None):
             else:
                 new_violations.append(v)
     for v in unreproduced[:3]:
-        inconclusive.append('%s: counterexample for %s did not reproduce concretely: %s' % (v['unit'], v['check'], json.dumps(v['inputs'])[:300]))
+        inconclusive.append('%s: counterexample for %s did not reproduce concretely: %s %s' % (v['unit'], v['check'], json.dumps(v['inputs'])[:200], json.dumps(v.get('info'))[:1600]))
 
     # vacuity twin at check level: the check module may declare a twin that MUST be violated
     twin = getattr(mod, 'TWIN', None)
